@@ -50,6 +50,8 @@ def gen_config(rng, max_vars, rep_choices, allow_none_name=False):
     name = rng.choice(tmpl)
     if allow_none_name and rng.random() < 0.4:
         name = None
+    listy = [k for k, v in fixed.items() if isinstance(v, (list, dict))]
+    unmark = rng.choice(listy) if listy and rng.random() < 0.4 else None
     order = list(fixed) + list(unpacked)
     rng.shuffle(order)
     unpack_order = list(unpacked)
@@ -62,6 +64,7 @@ def gen_config(rng, max_vars, rep_choices, allow_none_name=False):
         "delete_partials": rng.random() < 0.3,
         "buffer": rng.choice([8192, 8192, 8192, 1, 64, None]),
         "progress": rng.choice([None, None, None, "text1", "text2"]),
+        "unmark": unmark,
     }
 
 
@@ -385,6 +388,15 @@ def gen_plan_c05(rng, tier, idx, opts):
             inc["set_delete"] = rng.random() < 0.5
         if k > 0 and rng.random() < 0.35:
             inc["set_rep_max"] = max(1, cfg["rep_max"] + rng.choice([-2, -1, 1, 2, 3, 5]))
+        if k > 0 and not has_name and rng.random() < 0.3:
+            # the grid itself changes on the live runner: a parameter is un-marked / a list-valued one is marked for unpacking
+            cands = [("unmark", nm) for nm in sorted(cfg["unpacked"])] + [("mark", nm) for nm, v in sorted(cfg["fixed"].items()) if isinstance(v, (list, dict))]
+            if cands:
+                a, nm = rng.choice(cands)
+                inc["regrid"] = {a: nm}
+                inc["same_runner"] = True
+                inc["call"] = {"kind": "all"}
+                cfg = RW.regrid_cfg(cfg, inc["regrid"])      # later steps see the new grid
         plan["incarnations"].append(inc)
     return plan
 
@@ -425,7 +437,7 @@ def shrink(plan):
             c["incarnations"][i]["fault"]["keep"] = 0
             yield c
     for i, inc in enumerate(incs):
-        for fld in ("same_runner", "set_rep_max"):
+        for fld in ("same_runner", "set_rep_max", "regrid"):
             if inc.get(fld):
                 c = P()
                 c["incarnations"][i].pop(fld)
@@ -503,7 +515,7 @@ def shrink(plan):
             yield c
     # cosmetics
     for key, simple in (("ext", ""), ("partial_folder", "partial_results"), ("delete_partials", False),
-                        ("buffer", 8192), ("results_name", "res"), ("progress", None)):
+                        ("buffer", 8192), ("results_name", "res"), ("progress", None), ("unmark", None)):
         if cfg.get(key) != simple and not (key == "results_name" and cfg.get(key) is None):
             c = P()
             c["config"][key] = simple
